@@ -253,9 +253,9 @@ func (c *tcase) config() parser.Config {
 }
 
 type slot struct {
-	pkg, file          string
-	isGo               bool
-	proj, class, ngox  bool
+	pkg, file         string
+	isGo              bool
+	proj, class, ngox bool
 }
 
 func (s slot) String() string {
@@ -383,12 +383,12 @@ func refClassKind(c *tcase, name string) (isProj, ok bool) {
 }
 
 type expect struct {
-	included              bool
-	why                   string // rule that excludes it
-	goParser              bool
-	class, ngox           bool
-	proj, projDontCare    bool
-	classMode             bool
+	included           bool
+	why                string // rule that excludes it
+	goParser           bool
+	class, ngox        bool
+	proj, projDontCare bool
+	classMode          bool
 }
 
 func refExpect(c *tcase, e entry, dirRules bool) expect {
@@ -639,6 +639,52 @@ var stems = []string{"a", "b", "main", "_x", "_", "gop_autogen", "gop_autogen_b"
 var exts = []string{".xgo", ".gop", ".go", ".gox", ".spx", ".gsh", ".gmx", ".txt", "", ".GO", ".Xgo", ".go.bak", ".", ".goxx", ".yap", "_yap.gox", "_test.gox", ".xgo.go", ".go.spx"}
 var pkgs = []string{"p", "q", "main", "p2"}
 
+// every literal the classification code (and the class-kind tables used here) compares a name,
+// a prefix or an extension with
+var literals = []string{"main.spx", "gop_autogen", "gop_autogen.go", "_", "_test.gox", "_yap.gox",
+	".xgo", ".gop", ".go", ".gox", ".spx", ".gsh", ".gmx", ".yap", "main.gsh", "main.gmx", "main_yap.gox"}
+
+// nearMisses: the literal itself and its prefix / suffix / infix extensions, truncations and
+// case variants (xmain.spx, Domain.spx, a.main.spx, main.spx.x, MAIN.spx, main.SPX, …)
+func nearMisses(lit string) []string {
+	r := []string{lit, "x" + lit, "Do" + lit, "a." + lit, "_" + lit, lit + "x", lit + ".x", lit + "_",
+		strings.ToUpper(lit), strings.ToUpper(lit[:1]) + lit[1:]}
+	if len(lit) > 1 {
+		r = append(r, lit[1:], lit[:len(lit)-1], lit[:len(lit)/2]+"x"+lit[len(lit)/2:])
+	}
+	if i := strings.LastIndexByte(lit, '.'); i >= 0 {
+		r = append(r, lit[:i]+strings.ToUpper(lit[i:]), lit[:i]+"."+lit[i:], lit[:i]+lit[i+1:])
+		if i > 0 {
+			r = append(r, strings.ToUpper(lit[:i])+lit[i:], lit[:i]+"2"+lit[i:])
+		}
+	}
+	return r
+}
+
+// names derived from the literals: near-misses of whole names, and stems combined with
+// near-misses of extensions
+var nearNames = func() []string {
+	seen := map[string]bool{}
+	var out []string
+	add := func(n string) {
+		if validName(n) && !seen[n] {
+			seen[n] = true
+			out = append(out, n)
+		}
+	}
+	for _, l := range literals {
+		for _, n := range nearMisses(l) {
+			add(n)
+			if strings.HasPrefix(l, ".") || strings.HasPrefix(l, "_") {
+				for _, st := range []string{"a", "main", "_x", "gop_autogen"} {
+					add(st + n)
+				}
+			}
+		}
+	}
+	return out
+}()
+
 func validName(n string) bool {
 	return n != "" && n != "." && n != ".." && !strings.ContainsAny(n, "/\x00")
 }
@@ -646,8 +692,10 @@ func validName(n string) bool {
 func genName(r *vh.Rand) string {
 	for {
 		var n string
-		if r.Chance(90) {
+		if k := r.Intn(100); k < 60 {
 			n = r.Pick(stems) + r.Pick(exts)
+		} else if k < 90 {
+			n = r.Pick(nearNames)
 		} else {
 			al := []byte("._agopx \xff-")
 			b := make([]byte, 1+r.Intn(7))
@@ -760,12 +808,20 @@ func genCase(r *vh.Rand) *tcase {
 func exhaustive(o *vh.Out, thorough bool) int {
 	cnt := 0
 	cks := [][]int{nil, {0, 0}, {0, 1}, {1, 0}, {1, 1}}
+	var names []string
 	for _, st := range stems {
 		for _, ex := range exts {
-			name := st + ex
-			if !validName(name) {
+			names = append(names, st+ex)
+		}
+	}
+	names = append(names, nearNames...)
+	done := map[string]bool{}
+	for _, name := range names {
+		{
+			if !validName(name) || done[name] {
 				continue
 			}
+			done[name] = true
 			for cki, ck := range cks {
 				for g := 0; g < 2; g++ {
 					kinds := []int{0}
